@@ -57,6 +57,35 @@ KEYMAP = {"Waveform": 2, "Tx ID property": 3, "Unit": 10, "Channels": 11, "Loop 
           "Discretization": 1}
 
 
+def regenerate(repo):
+    """coq/generated/C20_Flags.v: is TipperSurvey.default_units the broken override (reads a name-mangled attribute the class
+    does not define)?  The interpreter of histories (Model/Linked.v, step OUnit) follows this fact."""
+    import ast
+    from pathlib import Path
+
+    from vlib import common as C
+
+    tree = ast.parse((Path(repo) / "geoh5py/objects/surveys/electromagnetics/tipper.py").read_text())
+    cls = [n for n in ast.walk(tree) if isinstance(n, ast.ClassDef) and n.name == "TipperSurvey"]
+    if not cls:
+        raise RuntimeError("class TipperSurvey not found")
+    broken = False
+    assigned = {t.id for st in cls[0].body if isinstance(st, ast.Assign) for t in st.targets if isinstance(t, ast.Name)}
+    for st in cls[0].body:
+        if isinstance(st, ast.FunctionDef) and st.name == "default_units":
+            used = {n.attr for n in ast.walk(st) if isinstance(n, ast.Attribute) and isinstance(n.value, ast.Name) and n.value.id == "self"}
+            if any(a.startswith("__") and not a.endswith("__") and a not in assigned for a in used):
+                broken = True
+    gen = C.COQ / "generated"
+    gen.mkdir(exist_ok=True)
+    text = ("(* generated by tools/props/c20.py:regenerate from geoh5py/objects/surveys/electromagnetics/tipper.py *)\n"
+            "Definition tipper_units_broken : bool := %s.\n" % ("true" if broken else "false"))
+    f = gen / "C20_Flags.v"
+    if not f.exists() or f.read_text() != text:
+        f.write_text(text)
+    return {"tables": {"tipper_units_broken": int(broken)}}
+
+
 def tokz(x):
     """value token: small ints are themselves, anything else a 40-bit hash (only equality matters)."""
     if isinstance(x, bool):
